@@ -135,12 +135,21 @@ Definition scan_ok (D : list Z -> res (list Z)) (k : sqlk) (v : sqlv) (r : res v
   end.
 
 (* ---------------- cases ---------------- *)
+(* one kept result of a history of encoder calls: the text (or SQL value) as the caller reads it at the END of the
+   history, after further encoder calls were made, and what decoding it then gives *)
+Inductive item :=
+| IEnc (t : cty) (v : val) (o : oracle) (out : list Z) (back : res val)
+| IValue (k : sqlk) (v old : val) (o : oracle) (out : sqlv) (back : res val).
+
 Inductive case :=
 | CDec (t : cty) (tok : list Z) (o : oracle) (obs : list (res val))          (* decode tok: result on every path that delivered exactly tok *)
 | CEnc (t : cty) (v : val) (o : oracle) (out : list Z) (back : res val)      (* encode v = out; decode out = back *)
 | CToml (v : option (list Z)) (o : oracle) (obs : res val)                   (* Duration.UnmarshalTOML *)
 | CScan (k : sqlk) (old : val) (v : sqlv) (o : oracle) (obs : res val)       (* Scan(v) on a receiver holding old *)
-| CValue (k : sqlk) (v old : val) (o : oracle) (out : sqlv) (back : res val). (* Value() = out; Scan(out) on a receiver holding old = back *)
+| CValue (k : sqlk) (v old : val) (o : oracle) (out : sqlv) (back : res val)  (* Value() = out; Scan(out) on a receiver holding old = back *)
+| CHist (items : list item).   (* encode many (sequentially, or each item by its own goroutine), keep the results, encode more, read and decode at the end *)
+Definition to_case (i : item) : case :=
+  match i with IEnc t v o out back => CEnc t v o out back | IValue k v old o out back => CValue k v old o out back end.
 
 (* the stdlib pair round-trips on the value of this case (the Section hypothesis of the theorems, sampled) *)
 Definition std_dur_ok (o : oracle) (t : cty) (v : val) : bool :=
@@ -174,11 +183,13 @@ Definition accept_core (c : case) : bool :=
       opt_eqb sqlv_eqb (value_of (orc_b64_enc o) k v) (Some out)
       && res_eqb val_eqb (scan (orc_b64_dec o) k old out) back
       && std_b64_ok o k v
+  | CHist _ => false
   end.
 
-Definition accept (c : case) : bool := accept_core c && b64_tied c.
+(* the single-call cases *)
+Definition accept0 (c : case) : bool := accept_core c && b64_tied c.
 
-Definition holds (c : case) : bool :=
+Definition holds0 (c : case) : bool :=
   match c with
   | CDec t tok o obs => forallb (dec_ok (orc_dur_parse o) t tok) obs                                          (* exact or error *)
   | CEnc t v o out back => negb (in_dom t v) || res_eqb val_eqb back (Ok (canon t v))         (* round trip *)
@@ -191,4 +202,18 @@ Definition holds (c : case) : bool :=
       end
   | CScan k old v o obs => scan_ok (orc_b64_dec o) k v obs
   | CValue k v old o out back => negb (sql_dom k v) || res_eqb val_eqb back (Ok (sql_canon k v))
+  | CHist _ => true
+  end.
+
+(* a history: every kept result, read at the end, is the model's text for its own value (accept) and still decodes to
+   its own value (holds) *)
+Definition accept (c : case) : bool :=
+  match c with
+  | CHist items => negb (Nat.eqb (length items) 0) && forallb (fun i => accept0 (to_case i)) items
+  | _ => accept0 c
+  end.
+Definition holds (c : case) : bool :=
+  match c with
+  | CHist items => forallb (fun i => holds0 (to_case i)) items
+  | _ => holds0 c
   end.
